@@ -227,13 +227,17 @@ func runAll(repo, verif string, timeoutS int, only func(*Obligation) bool, keepS
 		res.fcs = append(res.fcs, fc)
 	}
 	propagateTags(w, res.fcs)
+	if afterGenerate != nil {
+		afterGenerate(res.fcs)
+	}
 	// contracts that name functions which do not exist: fail closed
 	for k, c := range w.cs.Funcs {
 		if c.Trusted || strings.HasPrefix(k, "iface:") || strings.HasPrefix(k, "dyn:") {
 			continue
 		}
 		if _, ok := w.fnByKey[k]; !ok {
-			return nil, fmt.Errorf("contract-not-applicable: contract for %s (%s:%d) matches no function", k, c.File, c.Line)
+			// the function was removed or renamed: every obligation it had is gone (reported like an unverifiable function)
+			res.genErr[k] = fmt.Errorf("contract for %s (%s:%d) matches no function in the current tree (removed or renamed)", k, shortFile(c.File), c.Line)
 		}
 	}
 	headers := make([]string, len(res.fcs))
@@ -368,11 +372,18 @@ func cmdCheck(args []string) {
 		fmt.Println("ERROR", err)
 		os.Exit(2)
 	}
+	// Every obligation of a function that carries an obligation of this property is run: obligations are assumed once
+	// asserted, so a failed obligation of another property earlier in the same function would make this property's
+	// obligations vacuous.
+	var propFuncs map[string]bool
 	only := func(o *Obligation) bool {
-		if o.Kind == "canary" {
-			return hasTag(o, *prop) || canaryServes(o, *prop)
+		if propFuncs != nil && !propFuncs[o.Func] {
+			return false
 		}
-		if !hasTag(o, *prop) {
+		if o.Kind == "canary" {
+			return true
+		}
+		if propFuncs == nil && !hasTag(o, *prop) {
 			return false
 		}
 		if *tier == "thorough" {
@@ -387,6 +398,17 @@ func cmdCheck(args []string) {
 		}
 		e := base.Entries[k]
 		return e == nil || e.Discharged
+	}
+	afterGenerate = func(fcs []*FnCtx) {
+		propFuncs = map[string]bool{}
+		for _, fc := range fcs {
+			for _, o := range fc.obls {
+				if o.Kind != "canary" && hasTag(o, *prop) {
+					propFuncs[fc.key] = true
+					break
+				}
+			}
+		}
 	}
 	res, err := runAll(*repo, *verif, timeout, only, os.Getenv("GOVC_SCRATCH"))
 	if err != nil {
@@ -691,6 +713,9 @@ func cmdCheck(args []string) {
 }
 
 var boundedEvidence = map[string]interface{}{}
+
+// afterGenerate, when set, is called by runAll once all obligations exist and are tagged (before any is discharged).
+var afterGenerate func(fcs []*FnCtx)
 
 func round3(f float64) float64 { return float64(int(f*1000+0.5)) / 1000 }
 
